@@ -261,7 +261,143 @@ def gen_entrypoints():
     return '\n'.join(out)
 
 
-GENERATORS = {'Consts.v': gen_consts, 'EntryPoints.v': gen_entrypoints}
+# ------------------------------------------------------------------ Extras --
+class _BoolTr:
+    """Translates the field-selection loops of extras/dataclasses.py and
+    extras/attrs.py into Gallina boolean functions over named atoms.  Accepts
+    only: `if not <loopvar>.repr: continue`, `display_attr = True/False`,
+    if/elif/else chains, `<name> = <atom expr>` aliases, no-op string asserts,
+    and the final `if display_attr: kwargs.append((<v>.name, getattr(value, <v>.name)))`."""
+
+    def __init__(self, atoms, loopvar):
+        self.atoms = atoms          # {ast.dump(expr): coq name}
+        self.alias = {}
+        self.loopvar = loopvar
+
+    def expr(self, e):
+        d = ast.dump(e)
+        if d in self.atoms:
+            return self.atoms[d]
+        if isinstance(e, ast.BoolOp):
+            op = ' && ' if isinstance(e.op, ast.And) else ' || '
+            return '(' + op.join(self.expr(v) for v in e.values) + ')'
+        if isinstance(e, ast.UnaryOp) and isinstance(e.op, ast.Not):
+            return '(negb %s)' % self.expr(e.operand)
+        if isinstance(e, ast.Compare) and len(e.ops) == 1 and isinstance(e.ops[0], (ast.IsNot, ast.NotEq)):
+            flipped = ast.Compare(left=e.left, ops=[ast.Is() if isinstance(e.ops[0], ast.IsNot) else ast.Eq()],
+                                  comparators=e.comparators)
+            if ast.dump(flipped) in self.atoms:
+                return '(negb %s)' % self.atoms[ast.dump(flipped)]
+            # default != getattr(value, name)  with an alias on the left
+            if isinstance(e.ops[0], ast.NotEq) and isinstance(e.left, ast.Name) and e.left.id in self.alias:
+                return self.alias[e.left.id]
+        raise TranslateError('extras: condition not understood: %s' % ast.unparse(e))
+
+    def block(self, stmts, cur):
+        for st in stmts:
+            if isinstance(st, ast.Assign) and len(st.targets) == 1 and isinstance(st.targets[0], ast.Name):
+                name = st.targets[0].id
+                if name == 'display_attr':
+                    need(isinstance(st.value, ast.Constant) and isinstance(st.value.value, bool),
+                         'extras: display_attr = True/False')
+                    cur = 'true' if st.value.value else 'false'
+                else:
+                    d = ast.dump(st.value)
+                    need(d in self.atoms, 'extras: alias %s = %s not understood' % (name, ast.unparse(st.value)))
+                    self.alias[name] = self.atoms[d]
+            elif isinstance(st, ast.If):
+                c = self.expr(st.test)
+                a = self.block(st.body, cur)
+                b = self.block(st.orelse, cur)
+                cur = '(if %s then %s else %s)' % (c, a, b)
+            elif isinstance(st, ast.Assert):
+                need(isinstance(st.test, ast.Constant) and isinstance(st.test.value, str), 'extras: only no-op asserts')
+            elif isinstance(st, ast.Expr) and isinstance(st.value, ast.Constant):
+                pass
+            else:
+                raise TranslateError('extras: statement not understood: %s' % ast.unparse(st))
+        return cur
+
+
+def _extras_loop(fn, itername):
+    loops = [n for n in fn.body if isinstance(n, ast.For)]
+    need(len(loops) == 1 and isinstance(loops[0].target, ast.Name) and isinstance(loops[0].iter, ast.Name)
+         and loops[0].iter.id == itername, '%s: one loop over %s' % (fn.name, itername))
+    lp = loops[0]
+    v = lp.target.id
+    body = list(lp.body)
+    first = body.pop(0)
+    need(ast.dump(first) == ast.dump(ast.parse('if not %s.repr:\n    continue' % v).body[0]),
+         '%s: loop starts with "if not %s.repr: continue"' % (fn.name, v))
+    last = body.pop()
+    need(ast.dump(last) == ast.dump(ast.parse(
+        'if display_attr:\n    kwargs.append((%s.name, getattr(value, %s.name)))' % (v, v)).body[0]),
+        '%s: loop ends with "if display_attr: kwargs.append((name, value))"' % fn.name)
+    return v, body
+
+
+def gen_extras():
+    dc = parse(os.path.join('extras', 'dataclasses.py'))
+    fn = find_func(dc, 'pretty_dataclass_instance')
+    need(ast.dump(find_assign(fn.body, 'field_defs')) == ast.dump(ast.parse('fields(value)', mode='eval').body),
+         'dataclasses: field_defs = fields(value)')
+    v, body = _extras_loop(fn, 'field_defs')
+
+    def A(src):
+        return ast.dump(ast.parse(src.replace('V', v), mode='eval').body)
+    tr = _BoolTr({A('V.default is MISSING'): 'd_missing', A('V.default_factory is MISSING'): 'f_missing',
+                  A('V.default != getattr(value, V.name)'): 'ne_default',
+                  A('V.default_factory()'): 'ne_factory'}, v)
+    dc_expr = tr.block(body, 'false')
+    ret = fn.body[-1]
+    need(isinstance(ret, ast.Return), 'dataclasses: ends with return')
+    forms = {ast.dump(ast.parse('pretty_call(ctx, cls, **OrderedDict(kwargs))', mode='eval').body): 'splat',
+             ast.dump(ast.parse('pretty_call_alt(ctx, cls, kwargs=kwargs)', mode='eval').body): 'alt'}
+    need(ast.dump(ret.value) in forms, 'dataclasses: return pretty_call(ctx, cls, **OrderedDict(kwargs)) or '
+         'pretty_call_alt(ctx, cls, kwargs=kwargs); got %s' % ast.unparse(ret.value))
+    dc_form = forms[ast.dump(ret.value)]
+
+    at = parse(os.path.join('extras', 'attrs.py'))
+    fa = find_func(at, 'pretty_attrs')
+    need(ast.dump(find_assign(fa.body, 'attributes')) == ast.dump(ast.parse('cls.__attrs_attrs__', mode='eval').body),
+         'attrs: attributes = cls.__attrs_attrs__')
+    v2, body2 = _extras_loop(fa, 'attributes')
+
+    def B(src):
+        return ast.dump(ast.parse(src.replace('V', v2), mode='eval').body)
+    tr2 = _BoolTr({B('V.default == NOTHING'): 'is_nothing', B('isinstance(V.default, Factory)'): 'is_factory',
+                   B('V.default != getattr(value, V.name)'): 'ne_default',
+                   B('V.default.factory(value) if V.default.takes_self else V.default.factory()'): 'ne_factory'}, v2)
+    at_expr = tr2.block(body2, 'false')
+    ret2 = fa.body[-1]
+    need(isinstance(ret2, ast.Return) and ast.dump(ret2.value) in forms, 'attrs: return pretty_call_alt(ctx, cls, kwargs=kwargs)')
+    at_form = forms[ast.dump(ret2.value)]
+    # pretty_call forwards *args/**kwargs to pretty_call_alt
+    pp = parse('prettyprinter.py')
+    pc = find_func(pp, 'pretty_call')
+    need(pc.args.vararg is not None and pc.args.kwarg is not None and [a.arg for a in pc.args.args] == ['ctx', 'fn']
+         and ast.dump(pc.body[-1]) == ast.dump(ast.parse('return pretty_call_alt(ctx, fn, args, kwargs)').body[0]),
+         'pretty_call(ctx, fn, *args, **kwargs): return pretty_call_alt(ctx, fn, args, kwargs)')
+    out = ['(* GENERATED by harness/translate.py from /repo/prettyprinter/extras - do not edit *)',
+           'From Coq Require Import Bool List String.', 'Import ListNotations.',
+           '(* field selection of pretty_dataclass_instance: repr flag, default is MISSING, default_factory is MISSING,',
+           '   default != value, default_factory() != value *)',
+           'Definition dc_display (repr d_missing f_missing ne_default ne_factory : bool) : bool :=',
+           '  if negb repr then false else %s.' % dc_expr,
+           '(* field selection of pretty_attrs: repr flag, default == NOTHING, isinstance(default, Factory),',
+           '   factory(...) != value, default != value *)',
+           'Definition attrs_display (repr is_nothing is_factory ne_factory ne_default : bool) : bool :=',
+           '  if negb repr then false else %s.' % at_expr,
+           '(* how the keyword arguments reach pretty_call_alt: "splat" = pretty_call(ctx, cls, **kwargs), whose own',
+           '   parameters ctx / fn then collide with fields of that name; "alt" = pretty_call_alt(ctx, cls, kwargs=kwargs) *)',
+           'Definition dc_call_form : string := %s.' % coq_string(dc_form),
+           'Definition attrs_call_form : string := %s.' % coq_string(at_form),
+           'Definition pretty_call_reserved : list string := ["ctx"; "fn"]%string.',
+           '']
+    return '\n'.join(out)
+
+
+GENERATORS = {'Consts.v': gen_consts, 'EntryPoints.v': gen_entrypoints, 'Extras.v': gen_extras}
 
 
 def generate():
